@@ -16,6 +16,11 @@ type Message struct {
 	Payload []byte
 }
 
+// maxMessagePrealloc is the biggest single frame payload that ReadMessage
+// allocates at once, trusting the length announced by the frame header. Bigger
+// payloads are read as they arrive.
+const maxMessagePrealloc = 1 << 20
+
 // ReadMessage is a helper function that reads next message from r. It appends
 // received message(s) to the third argument and returns the result of it and
 // an error if some failure happened. That is, it probably could receive more
@@ -43,7 +48,7 @@ func ReadMessage(r io.Reader, s ws.State, m []Message) ([]Message, error) {
 		return m, err
 	}
 	var p []byte
-	if h.Fin {
+	if h.Fin && h.Length <= maxMessagePrealloc {
 		// No more frames will be read. Use fixed sized buffer to read payload.
 		p = make([]byte, h.Length)
 		// It is not possible to receive io.EOF here because Reader does not
